@@ -329,7 +329,7 @@ func cmdCheck(args []string) int {
 	nViol := 0
 	var violLines []string
 	var knownLines []string
-	var unclaimed []string
+	unclaimed := []string{}
 	reported := map[string]bool{}
 	discharged, claimedObls := 0, 0
 	for _, r := range mainRes {
